@@ -7,18 +7,13 @@
 import Btcdeb.Basic.Bytes
 import Btcdeb.Spec.Opcode
 import Btcdeb.Spec.Types
+import Btcdeb.Spec.Limits
 import Btcdeb.Spec.ScriptNum
 import Btcdeb.Model.ScriptNum
 import Btcdeb.Model.CondStack
 namespace Btcdeb.Spec
 open Btcdeb
 
-/-- consensus limits, as numbers (Properties/Tables proves the code's constants equal these) -/
-def maxElementSize : Nat := 520
-def maxOpsPerScript : Nat := 201
-def maxPubkeysPerMultisig : Nat := 20
-def maxScriptSize : Nat := 10000
-def maxStackSize : Nat := 1000
 
 structure Instr where
   opcode : Nat
@@ -614,10 +609,6 @@ def inDomain (maxOpcode : Nat) (s : Bytes) : Bool :=
   | none => false
   | some is => is.all (fun i => i.opcode ≤ maxOpcode && i.data.length ≤ maxElementSize)
 
-/-- BIP342 OP_SUCCESSx opcodes -/
-def isOpSuccess (o : Nat) : Bool :=
-  o == 80 || o == 98 || (126 ≤ o && o ≤ 129) || (131 ≤ o && o ≤ 134) || (137 ≤ o && o ≤ 138) ||
-  (141 ≤ o && o ≤ 142) || (149 ≤ o && o ≤ 153) || (187 ≤ o && o ≤ 254)
 
 /-- does the script contain an OP_SUCCESSx opcode at an instruction position (before any undecodable tail) -/
 def hasOpSuccess (allowDisabled : Bool) (s : Bytes) : Bool :=
